@@ -59,6 +59,7 @@ MUTANTS = [
     # ---- C11
     m("c11-unchecked-sub", ["C11"], [(BH, "        let max_block_size = max_total_message_size\n            .checked_sub(max_non_payload_size)\n            .ok_or_else(|| {", "        let max_block_size = Some(max_total_message_size - max_non_payload_size)\n            .ok_or_else(|| {")], "subtraction overflow for tiny budgets"),
     m("c11-reserve-limit-removed", ["C11"], [(BH, "        if extend_len > maximum_reserve_len {", "        if extend_len > maximum_reserve_len && dst.is_empty() {")], "16 KiB jump limit only for the first block"),
+    m("c11-splice-inclusive-end", ["C11"], [(BH, "        Bound::Included(&included) => included + 1,", "        Bound::Included(&included) => included,")], "extending_splice with an inclusive range grows the buffer one byte short (public function; the handler passes exclusive ranges only)"),
     # ---- C12
     m("c12-key-without-requester", ["C12"], [(BH, "            requester: request.source.clone(),", "            requester: None,")], "cache key ignores the endpoint"),
     m("c12-key-joined-path", ["C12"], [(BH, "            path: request.get_path_as_vec().unwrap_or_default(),", "            path: vec![request.get_path()],")], "cache key built from the joined path"),
